@@ -2,6 +2,7 @@ package main
 
 import (
 	"fmt"
+	"reflect"
 	"go/ast"
 	"go/token"
 	"go/types"
@@ -445,6 +446,131 @@ func (g *Gen) nondeterminism(f *ssa.Function, seen map[*ssa.Function]bool) strin
 					return "call to " + callee.String() + " in " + f.String()
 				}
 			}
+		}
+	}
+	return ""
+}
+
+// resolveSchemaType: TypeName | FuncKey:Type | FuncKey:var(name), relative to the package of fx.
+func (g *Gen) resolveSchemaType(fx *fnExec, ref string) *types.Struct {
+	pkg := g.fnPkgPath(fx.fn)
+	i := strings.LastIndex(ref, ":")
+	if i < 0 {
+		if t := g.lookupType(pkg, ref); t != nil {
+			return structOf(t)
+		}
+		return nil
+	}
+	fkey, tn := ref[:i], ref[i+1:]
+	fn := g.funcs[pkg+"::"+fkey]
+	if fn == nil {
+		return nil
+	}
+	var found *types.Struct
+	var visit func(f *ssa.Function)
+	visit = func(f *ssa.Function) {
+		for _, b := range f.Blocks {
+			for _, in := range b.Instrs {
+				al, ok := in.(*ssa.Alloc)
+				if !ok {
+					continue
+				}
+				et := deref(al.Type())
+				if strings.HasPrefix(tn, "var(") {
+					if al.Comment == strings.TrimSuffix(strings.TrimPrefix(tn, "var("), ")") && structOf(et) != nil {
+						found = structOf(et)
+					}
+				} else if n := namedOf(et); n != nil && n.Obj().Name() == tn && structOf(et) != nil {
+					found = structOf(et)
+				}
+			}
+		}
+	}
+	visit(fn)
+	return found
+}
+
+func jsonKey(st *types.Struct, i int) (key string, tagged bool, skip bool) {
+	f := st.Field(i)
+	if !f.Exported() {
+		return "", false, true
+	}
+	tag := reflect.StructTag(st.Tag(i)).Get("json")
+	if tag == "-" {
+		return "", false, true
+	}
+	name := strings.Split(tag, ",")[0]
+	if name != "" {
+		return name, true, false
+	}
+	return f.Name(), false, false
+}
+
+func jsonCategory(t types.Type) string {
+	switch u := t.Underlying().(type) {
+	case *types.Basic:
+		switch {
+		case u.Info()&types.IsString != 0:
+			return "string"
+		case u.Info()&types.IsBoolean != 0:
+			return "bool"
+		case u.Info()&types.IsNumeric != 0:
+			return "number"
+		}
+	case *types.Slice:
+		if b, ok := u.Elem().Underlying().(*types.Basic); ok && b.Kind() == types.Uint8 {
+			return "any" // json.RawMessage / []byte
+		}
+		return "[]" + jsonCategory(u.Elem())
+	case *types.Map:
+		return "map" + jsonCategory(u.Elem())
+	case *types.Pointer:
+		return jsonCategory(u.Elem())
+	case *types.Interface:
+		return "any"
+	case *types.Struct:
+		return "object"
+	}
+	return "?"
+}
+
+// schemaMismatch: "" when every key the encoder struct writes is matched by a decoder field by
+// encoding/json's rule (exact key, else case-insensitive) with a compatible type.
+func (g *Gen) schemaMismatch(fx *fnExec, encRef, decRef string) string {
+	enc := g.resolveSchemaType(fx, encRef)
+	dec := g.resolveSchemaType(fx, decRef)
+	if enc == nil {
+		return "cannot resolve " + encRef
+	}
+	if dec == nil {
+		return "cannot resolve " + decRef
+	}
+	for i := 0; i < enc.NumFields(); i++ {
+		k, _, skip := jsonKey(enc, i)
+		if skip {
+			continue
+		}
+		match := -1
+		for j := 0; j < dec.NumFields(); j++ {
+			dk, _, dskip := jsonKey(dec, j)
+			if !dskip && dk == k {
+				match = j
+			}
+		}
+		if match < 0 {
+			for j := 0; j < dec.NumFields(); j++ {
+				dk, _, dskip := jsonKey(dec, j)
+				if !dskip && strings.EqualFold(dk, k) {
+					match = j
+				}
+			}
+		}
+		if match < 0 {
+			return fmt.Sprintf("key %q written by %s has no field in %s", k, encRef, decRef)
+		}
+		ce, cd := jsonCategory(enc.Field(i).Type()), jsonCategory(dec.Field(match).Type())
+		if ce != cd && ce != "any" && cd != "any" {
+			return fmt.Sprintf("key %q: %s written, %s expected", k, ce, cd)
 		}
 	}
 	return ""
